@@ -165,6 +165,153 @@ func (c *Ctx) prefixTests(fn *ssa.Function) []prefixTest {
 	return out
 }
 
+// trueCellKeys: explorer keys (all to be assumed TRUE) for the loads in fn of
+// boolean variables - local or captured - that are assigned exactly once, a
+// value that is true whenever every test satisfying isTrueTest is true: such a
+// test itself, the constant true, or an `||`/phi of those. (A maintainer may
+// hoist `a != nil || b != nil` into a variable computed once.)
+func (c *Ctx) trueCellKeys(fn *ssa.Function, x *eng.Explorer, isTrueTest func(ssa.Value) bool) []string {
+	var implied func(v ssa.Value, d int) bool
+	implied = func(v ssa.Value, d int) bool {
+		if d > 6 {
+			return false
+		}
+		if isTrueTest(v) {
+			return true
+		}
+		if b, ok := eng.ConstBool(v); ok {
+			return b
+		}
+		if ph, ok := v.(*ssa.Phi); ok {
+			for _, e := range ph.Edges {
+				if !implied(e, d+1) {
+					return false
+				}
+			}
+			return len(ph.Edges) > 0
+		}
+		return false
+	}
+	var keys []string
+	eng.Instrs(fn, func(in ssa.Instruction) {
+		u, ok := in.(*ssa.UnOp)
+		if !ok || u.Op != token.MUL {
+			return
+		}
+		var root *ssa.Alloc
+		switch ad := u.X.(type) {
+		case *ssa.Alloc:
+			root = ad
+		case *ssa.FreeVar:
+			root = c.P.Census().Root(ad)
+		}
+		if root == nil {
+			return
+		}
+		if bt, isBasic := root.Type().(*types.Pointer).Elem().Underlying().(*types.Basic); !isBasic || bt.Kind() != types.Bool {
+			return
+		}
+		n, good := 0, 0
+		for _, st := range c.P.Census().CellStorers(root) {
+			eng.InstrsShallow(st, func(i2 ssa.Instruction) {
+				s, isS := i2.(*ssa.Store)
+				if !isS {
+					return
+				}
+				var a *ssa.Alloc
+				switch ad := s.Addr.(type) {
+				case *ssa.Alloc:
+					a = ad
+				case *ssa.FreeVar:
+					a = c.P.Census().Root(ad)
+				}
+				if a != root {
+					return
+				}
+				n++
+				if implied(s.Val, 0) {
+					good++
+				}
+			})
+		}
+		if n == 1 && good == 1 {
+			keys = append(keys, x.KeyAtEntry(u))
+		}
+	})
+	return keys
+}
+
+// modeBitTestsOn is modeBitTests restricted to tests whose operand is
+// X.Mode() for a FileInfo X satisfying recv.
+func (c *Ctx) modeBitTestsOn(fn *ssa.Function, x *eng.Explorer, bit int64, recv func(ssa.Value) bool) []string {
+	var keys []string
+	eng.Instrs(fn, func(in ssa.Instruction) {
+		v, ok := in.(ssa.Value)
+		if !ok {
+			return
+		}
+		operand, mask, setWhenTrue, isBT := eng.BitTest(v)
+		if !isBT || mask != bit {
+			return
+		}
+		mcall, isCall := eng.Canon(operand).(*ssa.Call)
+		if !isCall || c.P.CalleeName(mcall) != "(io/fs.FileInfo).Mode" || !recv(mcall.Call.Value) {
+			return
+		}
+		key := x.KeyAtEntry(v)
+		if !setWhenTrue {
+			key = "!" + key
+		}
+		keys = append(keys, key)
+	})
+	return keys
+}
+
+// dirTestKeys returns, for every test in fn of "is a directory" applied to a
+// FileInfo satisfying recv - fi.IsDir(), fi.Mode().IsDir(), or a ModeDir bit
+// test of fi.Mode() - an explorer key whose truth means "directory".
+func (c *Ctx) dirTestKeys(fn *ssa.Function, x *eng.Explorer, recv func(ssa.Value) bool) []string {
+	var keys []string
+	modeOf := func(v ssa.Value) (ssa.Value, bool) {
+		call, ok := eng.Canon(v).(*ssa.Call)
+		if !ok || c.P.CalleeName(call) != "(io/fs.FileInfo).Mode" {
+			return nil, false
+		}
+		return call.Call.Value, true
+	}
+	eng.Instrs(fn, func(in ssa.Instruction) {
+		v, ok := in.(ssa.Value)
+		if !ok {
+			return
+		}
+		if call, isCall := in.(*ssa.Call); isCall {
+			switch c.P.CalleeName(call) {
+			case "(io/fs.FileInfo).IsDir":
+				if recv(call.Call.Value) {
+					keys = append(keys, x.KeyAtEntry(call))
+				}
+			case "(io/fs.FileMode).IsDir":
+				if len(call.Call.Args) > 0 {
+					if r, isMode := modeOf(call.Call.Args[0]); isMode && recv(r) {
+						keys = append(keys, x.KeyAtEntry(call))
+					}
+				}
+			}
+			return
+		}
+		if operand, mask, setWhenTrue, isBT := eng.BitTest(v); isBT && mask == modeDir {
+			if r, isMode := modeOf(operand); isMode && recv(r) {
+				k := x.KeyAtEntry(v)
+				if !setWhenTrue {
+					k = "!" + k
+				}
+				keys = append(keys, k)
+			}
+		}
+	})
+	return keys
+}
+
 // ReachAfter: is an instruction satisfying isT reachable after `from` has executed?
 func (c *Ctx) ReachAfter(fn *ssa.Function, from ssa.Instruction, isT func(ssa.Instruction) bool) (*eng.Hit, bool) {
 	x := c.explorer(fn)
@@ -725,6 +872,21 @@ func (c *Ctx) packetConst(name string) (int64, bool) {
 	s := cst.Val().ExactString()
 	var n int64
 	fmt.Sscan(s, &n)
+	return n, true
+}
+
+// packetLikeConst resolves an integer constant of a module package by name.
+func (c *Ctx) packetLikeConst(pkg, name string) (int64, bool) {
+	pk := c.P.Pkg(pkg)
+	if pk == nil {
+		return 0, false
+	}
+	cst, ok := pk.Types.Scope().Lookup(name).(*types.Const)
+	if !ok {
+		return 0, false
+	}
+	var n int64
+	fmt.Sscan(cst.Val().ExactString(), &n)
 	return n, true
 }
 
